@@ -237,3 +237,113 @@ def check_depth():
     r['stats'] = dict(paths=2, queries=ctx.queries, asserts=ctx.asserts, asserts_proved=ctx.asserts - len(ctx.violations), solver_s=ctx.solver_s, steps=ctx.asserts)
     r['wall'] = round(time.time() - t0, 2)
     return r
+
+# ---------------------------------------------------------------------------------------------------------------------------
+# C18.masks: the include masks handed to filter_vtu_mesh.  --filtered: every tag except "mantle layer"; --by-tag: one file per
+# non-mantle tag whose mask selects exactly that tag.  The two blocks of main() are interpreted symbolically from the AST for
+# N = 1..NMAX feature tags (loops unrolled; which tags are "mantle layer" is symbolic; mask elements are z3 Booleans, state is
+# carried across loop iterations, `continue` and symbolic `if` become guards).  Unknown statements touching the mask are encoding errors.
+def _mentions(t, name):
+    if t == ('var', name): return True
+    if isinstance(t, tuple): return any(_mentions(x, name) for x in t)
+    if isinstance(t, list): return any(_mentions(x, name) for x in t)
+    return False
+
+class _MaskRun:
+    def __init__(s, N):
+        s.N = N; s.M = [z3.Bool('mantle_%d' % j) for j in range(N)]; s.mask = None; s.calls = []; s.skip = z3.BoolVal(False)
+    def ival(s, t, env):
+        if t[0] == 'int': return t[1]
+        if t[0] == 'var' and t[1] in env: return env[t[1]]
+        if t[0] == 'size': return s.N
+        if t[0] == 'bin' and t[1] in ('+', '-'):
+            a, b = s.ival(t[2], env), s.ival(t[3], env); return a + b if t[1] == '+' else a - b
+        raise astx.AstxError('mask index expression: ' + astx.term_str(t))
+    def cond(s, t, env):
+        if t[0] == 'call' and t[1] in ('operator==', 'operator!=') and len(t[2]) == 2 and t[2][1] == ('str', 'mantle layer') and t[2][0][0] == 'idx' and _mentions(t[2][0][1], 'world') or \
+           (t[0] == 'call' and t[1] in ('operator==', 'operator!=') and len(t[2]) == 2 and t[2][1] == ('str', 'mantle layer') and t[2][0][0] == 'idx' and t[2][0][1][0] == 'member' and t[2][0][1][1] == 'feature_tags'):
+            j = s.ival(t[2][0][2], env)
+            if not 0 <= j < s.N: raise astx.AstxError('feature_tags index %d outside 0..%d' % (j, s.N - 1))
+            return s.M[j] if t[1] == 'operator==' else z3.Not(s.M[j])
+        if t[0] == 'bin' and t[1] in ('<', '<=', '>', '>=', '==', '!='):
+            a, b = s.ival(t[2], env), s.ival(t[3], env)
+            return z3.BoolVal({'<': a < b, '<=': a <= b, '>': a > b, '>=': a >= b, '==': a == b, '!=': a != b}[t[1]])
+        if t[0] == 'un' and t[1] == '!': return z3.Not(s.cond(t[2], env))
+        raise astx.AstxError('condition in a mask block: ' + astx.term_str(t))
+    def run(s, tr, env, guard):
+        k = tr[0]; g = z3.And(guard, z3.Not(s.skip))
+        if k == 'seq':
+            for c in tr[1]: s.run(c, env, guard)
+        elif k == 'decl':
+            for n, v in tr[1]:
+                if n == 'include_tag':
+                    if not (v is not None and v[0] == 'list' and len(v[1]) >= 2 and v[1][0][0] == 'size' and v[1][1][0] == 'int'): raise astx.AstxError('include_tag initialiser: ' + str(v)[:120])
+                    fresh = [z3.BoolVal(bool(v[1][1][1]))] * s.N
+                    s.mask = fresh if s.mask is None else [z3.If(g, f, o) for f, o in zip(fresh, s.mask)]
+                elif v is not None and _mentions(v, 'include_tag'): raise astx.AstxError('include_tag used in the initialiser of ' + str(n))
+        elif k == 'for':
+            var, lo, c, body = tr[1], tr[2], tr[3], tr[4]
+            if _mentions(body, 'include_tag') or _mentions(body, 'filter_vtu_mesh') or any(True for _ in astx.find(body, lambda x: x[0] == 'expr' and x[1][0] == 'call' and x[1][1] == 'filter_vtu_mesh')):
+                if var is None or lo is None or c is None or c[0] != 'bin' or c[1] != '<' or c[2] != ('var', var) or c[3][0] != 'size': raise astx.AstxError('loop over the tags has an unexpected shape')
+                outer_skip = s.skip
+                for i in range(s.ival(lo, env), s.N):
+                    e2 = dict(env); e2[var] = i; s.skip = z3.BoolVal(False)
+                    s.run(body, e2, z3.And(guard, z3.Not(outer_skip)))
+                s.skip = outer_skip
+        elif k == 'if':
+            c = s.cond(tr[1], env) if (_mentions(tr[2], 'include_tag') or _mentions(tr[3], 'include_tag') or astx.find(tr[2], lambda x: x[0] in ('continue', 'break', 'return')) or astx.find(tr[3], lambda x: x[0] in ('continue', 'break', 'return'))) else None
+            if c is None: return
+            cs = z3.simplify(c)
+            if not z3.is_false(cs): s.run(tr[2], env, z3.And(guard, c))
+            if not z3.is_true(cs): s.run(tr[3], env, z3.And(guard, z3.Not(c)))
+        elif k == 'continue': s.skip = z3.Or(s.skip, guard)
+        elif k in ('break', 'return'): raise astx.AstxError('early exit in a mask block')
+        elif k == 'expr':
+            e = tr[1]
+            if e[0] == 'call' and e[1] == 'operator=' and e[2][0][0] == 'idx' and e[2][0][1] == ('var', 'include_tag'):
+                if s.mask is None: raise astx.AstxError('include_tag assigned before it is declared')
+                j = s.ival(e[2][0][2], env); val = e[2][1]
+                if val[0] != 'int': raise astx.AstxError('mask value: ' + astx.term_str(val))
+                if not 0 <= j < s.N: raise astx.AstxError('include_tag index %d outside 0..%d' % (j, s.N - 1))
+                s.mask = list(s.mask); s.mask[j] = z3.If(g, z3.BoolVal(bool(val[1])), s.mask[j])
+            elif e[0] == 'call' and e[1] == 'filter_vtu_mesh':
+                if len(e[2]) < 2 or e[2][1] != ('var', 'include_tag') or s.mask is None: raise astx.AstxError('filter_vtu_mesh is not called with include_tag')
+                s.calls.append((g, env.get('idx'), list(s.mask)))
+            elif _mentions(e, 'include_tag'): raise astx.AstxError('statement touching include_tag: ' + str(e)[:160])
+
+def check_masks(nmax=4):
+    t0 = time.time(); ctx = Ctx()
+    r = dict(id='C18.masks', case=[], verdict='PROVED', violations=[], undecided=[], stats={}, reached={}, called=['main (source/gwb-grid/main.cc, Clang AST): --filtered and --by-tag blocks'], axioms=[], validated=0, validation_mismatch=[], wall=0, samples=[])
+    try:
+        tree = astx.main_tree(SRC, ['-I' + os.path.join(build.REPO, 'include', 'vtu11')])
+        for name in ('output_filtered', 'output_by_tag'):
+            blocks = astx.find(tree, lambda x: x[0] == 'if' and x[1] == ('var', name))
+            if len(blocks) != 1: raise astx.AstxError('expected one `if (%s)` block, found %d' % (name, len(blocks)))
+            for N in range(1, nmax + 1):
+                run = _MaskRun(N); run.run(blocks[0][2], {}, z3.BoolVal(True))
+                names = []
+                if name == 'output_filtered':
+                    ctx.asserts += 1
+                    if len(run.calls) != 1: ctx.violations.append(dict(kind='assert', what='--filtered filters the mesh once', detail='%d calls of filter_vtu_mesh for %d tags' % (len(run.calls), N), inputs=[], native=None)); continue
+                    g, _, mask = run.calls[0]
+                    ctx.prove(z3.And(g, *[mask[j] == z3.Not(run.M[j]) for j in range(N)]), [], '--filtered keeps exactly the tags that are not "mantle layer"', '%d tags' % N, names)
+                else:
+                    by_idx = {}
+                    for g, i, mask in run.calls: by_idx.setdefault(i, []).append((g, mask))
+                    for i in range(N):
+                        ctx.asserts += 1
+                        if len(by_idx.get(i, [])) != 1: ctx.violations.append(dict(kind='assert', what='--by-tag filters the mesh once per tag', detail='%d calls for tag %d of %d' % (len(by_idx.get(i, [])), i, N), inputs=[], native=None)); continue
+                        g, mask = by_idx[i][0]
+                        ctx.prove(g == z3.Not(run.M[i]), [], '--by-tag writes a file for every tag that is not "mantle layer" and for no other', 'tag %d of %d' % (i, N), names)
+                        ctx.prove(z3.Implies(g, z3.And(*[mask[j] == z3.BoolVal(j == i) for j in range(N)])), [], '--by-tag: the mask of file idx selects exactly tag idx', 'tag %d of %d; which tags are "mantle layer" is arbitrary' % (i, N), names)
+            r['samples'].append(dict(obligation='C18.masks', block=name, tags='1..%d' % nmax))
+        r['violations'] = ctx.violations
+        if ctx.violations: r['verdict'] = 'VIOLATED'
+        for n in ctx.notes: r['undecided'].append(n)
+        if ctx.notes and not ctx.violations: r['verdict'] = 'UNDECIDED'
+        r['reached'] = {'__path_END': 1, 'mask checks': ctx.asserts}
+    except astx.AstxError as e:
+        r['verdict'] = 'ENCODING-ERROR'; r['undecided'].append(('astx', str(e)))
+    r['stats'] = dict(paths=2, queries=ctx.queries, asserts=ctx.asserts, asserts_proved=ctx.asserts - len(ctx.violations), solver_s=ctx.solver_s, steps=ctx.asserts)
+    r['wall'] = round(time.time() - t0, 2)
+    return r
